@@ -84,6 +84,25 @@ fn main() {
             let random = args.num("random", 40) / nshards / 2 + 1;
             for_flavours!("directed", F, { scc::run::<F>(&mut rep, max_n, inst, random, shard, nshards, &mut rng) });
         }
+        "serde_rt" => {
+            let max_n = args.num("max-n", 3) as usize;
+            let max_e = args.num("max-e", 3) as usize;
+            let random = args.num("random", 40) / nshards / 4 + 1;
+            for_flavours!("all", F, { serde_rt::run::<F>(&mut rep, max_n, max_e, random, shard, nshards, &mut rng) });
+            serde_rt::run_typed(&mut rng, &mut rep, args.num("typed", 200) / nshards + 1);
+        }
+        "serde_fuzz" => {
+            watchdog::start(prop.clone());
+            let random = args.num("random", 2000) / nshards / 4 + 1;
+            for_flavours!("all", F, { serde_fuzz::run::<F>(&mut rep, random, shard, nshards, &mut rng) });
+        }
+        "container" => {
+            let nk = args.num("keys", 2) as usize;
+            let depth = args.num("depth", 3) as usize;
+            let random = args.num("random", 100) / nshards / 4 + 1;
+            let hl = args.num("hist-len", 300) as usize;
+            for_flavours!("all", F, { container::run::<F>(&mut rep, nk, depth, random, hl, shard, nshards, &mut rng) });
+        }
         "replay" => {
             let path = args.str("file", "");
             let txt = std::fs::read_to_string(&path).expect("cannot read replay file");
@@ -100,6 +119,15 @@ fn main() {
                 }
                 "scc" => {
                     for_flavours!(fl.as_str(), F, { reproduced |= scc::replay::<F>(r) });
+                }
+                "serde_rt" => {
+                    for_flavours!(fl.as_str(), F, { reproduced |= serde_rt::replay::<F>(r) });
+                }
+                "serde_doc" => {
+                    for_flavours!(fl.as_str(), F, { reproduced |= serde_fuzz::replay::<F>(r) });
+                }
+                "container" => {
+                    for_flavours!(fl.as_str(), F, { reproduced |= container::replay::<F>(r) });
                 }
                 k => println!("replay kind {} not supported by this binary", k),
             }
